@@ -1,6 +1,7 @@
 """C17 — every built-in is total (narrow): reviewed panic sites of filters/tests/functions/args + guarded std preconditions."""
 from engine import (Tracer, EdgeFacts, find_calls, find_aggs, AnchorMissing, leaf_str, leaf_call_is, callee_def, callee_names, name_matches)
 import rpanic
+import re
 
 import rrec
 
@@ -22,6 +23,16 @@ def run(ctx, rep):
         rpanic.check(crate, rep, "R-PANIC.builtins", ("filters.rs", "tests.rs", "functions.rs", "args.rs"), cfg, 18)
         check_pre(crate, rep, cfg)
         check_iterable(crate, rep, cfg)
+        check_deleg(crate, rep, cfg)
+
+
+def lossless(a, b):
+    def bits(t):
+        return {"usize": 64, "isize": 64}.get(t) or int(re.sub(r"\D", "", t) or 0)
+    sa, sb_ = a.startswith("i"), b.startswith("i")
+    if sa == sb_:
+        return bits(b) >= bits(a)
+    return (not sa) and sb_ and bits(b) > bits(a)
 
 
 def dominated_by_call_fact(body, crate, bb, callee_suffix, truth):
@@ -55,7 +66,8 @@ def check_pre(crate, rep, cfg):
     b = crate.one("functions::range")
     rep.analysed(b)
     ef = EdgeFacts(b, crate)
-    caps = [bb for bb, t in b.calls() if callee_def(t).endswith("::with_capacity")]
+    # where the sequence is materialised: the pre-allocation, or the `collect()` of `(0..len).map(..)`
+    caps = [bb for bb, t in b.calls() if callee_def(t).endswith("::with_capacity") or callee_def(t).endswith("Iterator::collect") or callee_def(t).endswith("FromIterator::from_iter")]
     ok = bool(caps)
     for cb in caps:
         dom = False
@@ -81,7 +93,17 @@ def check_pre(crate, rep, cfg):
                                 return False
                             side = "r" if is_max(d[3]["r"]) else ("l" if is_max(d[3]["l"]) else None)
                             if side and rrec.NOT_EXCEEDING.get((f[1], side)) == f[4]:
-                                dom = True
+                                # ... and what is compared is the computed length itself, not a narrowed copy of it (`len as usize`
+                                # wraps a count of k * 2^64 + small into `small` before the test)
+                                other = d[3]["l"] if side == "r" else d[3]["r"]
+                                narrowed = False
+                                for l in Tracer(b).operand(other):
+                                    for pr in l.projs:
+                                        m = re.match(r"^cast:IntToInt:(\w+)->(\w+)$", pr)
+                                        if m and not lossless(m.group(1), m.group(2)):
+                                            narrowed = True
+                                if not narrowed:
+                                    dom = True
         ok = ok and dom
     rep.add("C17.PRE", "C17.PRE:range:len-capped", ok, b.where(caps[0]) if caps else b.where(0), "Vec::with_capacity(len) and the fill loop of `range` are dominated by the within-limit edge "
             "of the comparison of len with MAX_RANGE_LEN" + ("" if ok else " — VIOLATED"))
@@ -138,3 +160,45 @@ def check_iterable(crate, rep, cfg):
     ok = tset == a and all(c in kind_of or c.endswith("can_be_iterated_on") for c in called)
     rep.add("C17.ITERABLE", "C17.ITERABLE:test-agrees", ok, ti.where(0), "the `iterable` test accepts exactly the kinds can_be_iterated_on accepts: %s" % sorted(tset)
             + ("" if ok else " — VIOLATED (calls %s)" % sorted(called)))
+
+
+# string filters whose documented law is exactly a std operation: reviewed as delegations. A hand-written replacement (a loop, a state flag)
+# is where "changes nothing but what it documents" gets lost; like a new panic site it needs a review, which this rule asks for by name.
+DELEG = {
+    "filters::upper": ({"to_uppercase"}, ()),
+    "filters::lower": ({"to_lowercase"}, ()),
+    "filters::wordcount": ({"split_whitespace", "count"}, ()),
+    "filters::newlines_to_br": ({"replace"}, ("\r\n", "<br>")),
+    "filters::replace": ({"replace"}, ()),
+    "filters::trim": ({"trim", "trim_start_matches", "trim_end_matches"}, ()),
+    "filters::trim_start": ({"trim_start", "trim_start_matches"}, ()),
+    "filters::trim_end": ({"trim_end", "trim_end_matches"}, ()),
+}
+PLUMBING = {"to_string", "to_owned", "into", "from", "get", "must_get", "branch", "from_residual", "deref", "as_str", "as_ref", "borrow", "clone", "unwrap_or", "unwrap_or_default"}
+
+
+def check_deleg(crate, rep, cfg):
+    from engine import iter_operands
+    n = 0
+    for path, (want, consts) in sorted(DELEG.items()):
+        b = crate.one(path)
+        rep.analysed(b)
+        n += 1
+        bodies = crate.with_closures(b)
+        calls = set()
+        for bd in bodies:
+            for bb, t in bd.calls():
+                calls.add(callee_def(t).rsplit("::", 1)[-1])
+        work = calls - PLUMBING
+        loops = any(bd.natural_loops() for bd in bodies)
+        seen_consts = set()
+        for bd in bodies:
+            for bb, idx, st in bd.stmts():
+                for op in iter_operands(st):
+                    if op["k"] == "const" and isinstance(op.get("s"), str):
+                        seen_consts.add(op["s"])
+        ok = work == want and not loops and all(c in seen_consts for c in consts)
+        why = "calls %s%s" % (sorted(work), ", hand-written loop" if loops else "")
+        rep.add("C17.DELEG", "C17.DELEG:%s" % path, ok, b.where(0), "%s is the std operation(s) %s applied to the input, no loop of its own%s" % (
+            path.rsplit("::", 1)[-1], sorted(want), (" (constants %s)" % list(consts)) if consts else "") + ("" if ok else " — VIOLATED (review): " + why))
+    rep.floor("C17.DELEG", "string filters reviewed as std delegations [%s]" % cfg, n, 8)
